@@ -12,9 +12,9 @@ def FreshStep (s : State) : Action → Prop
   | .recv _ (.new id _) => id ∉ s.seenIds
   | _ => True
 
-inductive ReachableFresh (limit : Nat) : State → Prop
-  | init : ReachableFresh limit (init limit)
-  | step {s s' a} : ReachableFresh limit s → FreshStep s a → step s a = some s' → ReachableFresh limit s'
+inductive ReachableFresh (c : Cfg) : State → Prop
+  | init : ReachableFresh c (init c)
+  | step {s s' a} : ReachableFresh c s → FreshStep s a → step s a = some s' → ReachableFresh c s'
 
 theorem keys_insertResp (s : State) (r : Resp) :
     keys (insertResp s r) = (keys s).filter (fun k => k.2 != r.id) ++ [(r.peer, r.id)] := by
@@ -240,18 +240,18 @@ theorem rstep_step {s s' : State} {a : Action} (hf : FreshStep s a) (h : step s 
     simp only [step, Option.some.injEq] at h
     subst h; rw [pi_thawAll]; exact RStep.same _
 
-theorem pinv_reachable {limit : Nat} {s : State} (h : ReachableFresh limit s) : PInv (pi s) := by
+theorem pinv_reachable {c : Cfg} {s : State} (h : ReachableFresh c s) : PInv (pi s) := by
   induction h with
-  | init => exact pinv_init limit
+  | init => exact pinv_init c
   | step _ hf hs ih => exact ih.step (rstep_step hf hs)
 
 -- ------------------------------------------------------------------ concrete runs
-theorem reachable_run {limit : Nat} {s : State} (h : Reachable limit s) (as : List Action) :
-    Reachable limit (run s as) := by
+theorem reachable_run {c : Cfg} {s : State} (h : Reachable c s) (as : List Action) :
+    Reachable c (run s as) := by
   induction as generalizing s with
   | nil => exact h
   | cons a as ih =>
-    show Reachable limit (run ((step s a).getD s) as)
+    show Reachable c (run ((step s a).getD s) as)
     cases hs : step s a with
     | none => exact ih h
     | some s' => exact ih (Reachable.step h hs)
@@ -264,13 +264,13 @@ def freshRun : State → List Action → Bool
      | .recv _ (.new id _) => !s.seenIds.contains id
      | _ => true) && freshRun ((step s a).getD s) as
 
-theorem reachableFresh_run {limit : Nat} {s : State} (h : ReachableFresh limit s) (as : List Action)
-    (hf : freshRun s as = true) : ReachableFresh limit (run s as) := by
+theorem reachableFresh_run {c : Cfg} {s : State} (h : ReachableFresh c s) (as : List Action)
+    (hf : freshRun s as = true) : ReachableFresh c (run s as) := by
   induction as generalizing s with
   | nil => exact h
   | cons a as ih =>
     simp only [freshRun, Bool.and_eq_true] at hf
-    show ReachableFresh limit (run ((step s a).getD s) as)
+    show ReachableFresh c (run ((step s a).getD s) as)
     cases hs : step s a with
     | none => rw [hs] at hf; exact ih h hf.2
     | some s' =>
